@@ -73,7 +73,7 @@ def _item_snap(item):
 
 def _sem_equal(a, b, ports=True) -> list:
     diffs = []
-    keys = ["kind", "seq", "action", "proto", "src", "dst", "flags", "logs"] + (["sset", "dset"] if ports else [])
+    keys = ["kind", "seq", "action", "proto", "src", "dst", "flags", "logs"] + (["sport", "dport"] if ports else [])
     for key in keys:
         if a.get(key) != b.get(key):
             diffs.append(f"{key}: {a.get(key)!r} -> {b.get(key)!r}")
@@ -110,8 +110,6 @@ def _on_acl(self, value, exc, token):
     target = {"cisco_nxos": "nxos", "cnx": "nxos", "cisco_ios": "ios"}.get(value, value)
     if snap is None or target not in ("ios", "nxos") or snap["from"] not in ("ios", "nxos"):
         return
-    if any(i["kind"] == "ace" and (i["sset"] == "outside" or i["dset"] == "outside") for i in snap["items"]):
-        return
     if any(i["kind"] == "ace" and _multi(i) and (i["sport"] or ("",))[0] == "neq" or
            i["kind"] == "ace" and _multi(i) and (i["dport"] or ("",))[0] == "neq" for i in snap["items"]):
         _bump("neq_multi_excluded")
@@ -146,9 +144,9 @@ def _on_acl(self, value, exc, token):
                     problems.append(f"split piece {piece['line']!r} of {old['line']!r}: {diffs}")
                 sp = piece["sport"][1][0] if svals and piece["sport"] and len(piece["sport"][1]) == 1 else None
                 dp = piece["dport"][1][0] if dvals and piece["dport"] and len(piece["dport"][1]) == 1 else None
-                if not svals and piece["sset"] != old["sset"]:
+                if not svals and piece["sport"] != old["sport"]:
                     problems.append(f"split piece {piece['line']!r} changed the source port")
-                if not dvals and piece["dset"] != old["dset"]:
+                if not dvals and piece["dport"] != old["dport"]:
                     problems.append(f"split piece {piece['line']!r} changed the destination port")
                 got_pairs.add((sp, dp))
             if got_pairs != want_pairs:
@@ -198,7 +196,7 @@ def _on_ace(self, value, exc, token):
     if token is None or target not in ("ios", "nxos") or token["from"] not in ("ios", "nxos"):
         return
     old = token["snap"]
-    if _multi(old) or old["sset"] == "outside" or old["dset"] == "outside" or old["type"] != "extended":
+    if _multi(old) or old["type"] != "extended":
         return
     _bump("ace_conversions_judged")
     if exc is not None:
@@ -409,6 +407,22 @@ def gen_case(rng):
             ace = grammar.gen_ace(rng, platform, version, foreign=False, allow_multi=platform == "ios", seq=seq, ws=False,
                                   max_k=3, allow_empty=True)
             text = ace["text"]
+            if platform == "ios" and ace["feats"]["multi"] and rng.random() < 0.2 and " eq " in text:
+                # the boundary port 0 inside a multi-port eq list
+                toks = text.split()
+                for n, tok in enumerate(toks):
+                    if tok == "eq" and n + 2 < len(toks) and toks[n + 1].isdigit() and toks[n + 2].isdigit():
+                        toks[n + 1] = "0"
+                        break
+                text = " ".join(toks)
+            elif rng.random() < 0.06 and not ace["sem"]["src"][0] == "group":
+                # a non-contiguous wildcard with 17..19 bits (the ACL is built with max_ncwb=20)
+                toks = text.split()
+                for n, tok in enumerate(toks):
+                    if tok in ("any",) and n >= 2:
+                        toks[n] = "10.0.0.0 " + rng.choice(["0.85.255.85", "0.255.85.170", "1.255.255.0"])
+                        break
+                text = " ".join(toks)
             # version-only / platform-only names
             if rng.random() < 0.15 and ace["sem"]["proto"] in (6, 17) and not ace["sem"]["dport"]:
                 pname = "tcp" if ace["sem"]["proto"] == 6 else "udp"
